@@ -386,7 +386,7 @@ class Executor:
                     self.type_facts(st, v.f[name], ft, param)
                 except Unsupported:
                     pass
-        elif k == "array" and v.items is not None:
+        elif k == "array" and getattr(v, "items", None) is not None:
             for it in v.items:
                 self.type_facts(st, it, v.elem, param)
 
